@@ -6,10 +6,15 @@ Explorer: exhaustive product lattice  method x element pair x distance x orienta
 `makeA_pi_batched`, `pair_nuclear_energy`) compared block by block with the independent scalar
 reference model `vp.oracles.nddo_ref` (conformance replay), plus reference-free identities on the
 package's own operators (linearity, UHF(P/2,P/2) == RHF(P), centre-exchange symmetry of w,
-response == G).  A second section replays SCF single points of the molecule alphabet.
+response == G).  A second section replays SCF single points of the molecule alphabet: Hcore, w and
+the Fock matrix of the polyatomic block-wise, E_elec[P], E_nuc, E_iso, E_tot, Hf, and the reference SCF
+restarted from the package's density (plus, informatively, from its own start).
+
+Level: model_checking in the sense of DESIGN.md section 1 (S-lat against a reference model): states =
+lattice points of the reference model evaluated, transitions = block comparisons, traces = lattice
+points replayed against the implementation.  There is no transition system behind these numbers.
 """
 import math
-import os
 
 import numpy as np
 
@@ -28,7 +33,10 @@ RULE = (
     "compared block by block (overlap, the 22 local and 100 rotated two-centre integrals, Hcore AA/BB/AB, E_nuc, every Fock "
     "matrix) with the scalar reference model; distinct = distinct (method, pair, R, orientation); "
     "plus SCF single points of the molecule alphabet (E_elec[P], E_nuc, E_iso, E_tot, Hf and the reference SCF "
-    "restarted from the package density). quick tier: X-H, X-X and a fixed list of mixed pairs, 5 distances."
+    "restarted from the package density; Hcore, w and Fock matrices of the polyatomic compared block-wise as well). "
+    "quick tier: X-H, X-X and a fixed list of mixed pairs, 5 distances, 8 orientations; thorough: all pairs, the 9 stated "
+    "distances + 8 in-between + the two distances bracketing each junction of the B-integral algorithm, 12 orientations, "
+    "every saturated heavy-pair molecule H_nX-YH_m."
 )
 ASSUMPTIONS = [
     "the reference model nddo_ref (point-charge multipoles, brentq additive terms, prolate-spheroidal quadrature, dense "
@@ -37,6 +45,9 @@ ASSUMPTIONS = [
     "rotations about the bond) in every run",
     "unit constants 27.21 eV/hartree, 0.529167 A/bohr, 23.061 kcal/mol/eV and the atomic heats of formation are those "
     "of the MOPAC parameterisations (part of the model, not of the implementation)",
+    "B auxiliary integrals of the overlaps: MOPAC's 6th-order truncated series (pinned commit; effect <= 2.5e-7 on an "
+    "overlap, a 1e-6 eV energy step where |R dzeta/2| crosses 0.5) and a converged series are both accepted as documented "
+    "evaluations; a probe decides once per run which one the tree implements and everything is held to 1e-9 against it",
     "MOPAC conventions mirrored, not judged: h_pp floored at 0.1 eV in the rho2 condition only; PM3 two Gaussians; "
     "E_iso from the restricted average-of-configuration formula; 5-step secant for rho1/rho2 in the package versus the "
     "exact root in the reference (measured gap <= 1.4e-9 bohr, inside the 1e-7 eV integral tolerance)",
@@ -68,9 +79,18 @@ def boundary_distances(method, ZA, ZB):
             if len(out) >= 4:
                 break
     return out
-TOL_INT = 1e-7  # eV, two-centre integrals (DESIGN.md C06: sketch agreed to 3e-10; secant gap bound 1e-8)
-TOL_S = 1e-9  # overlaps
-TOL_ID = 1e-10  # reference-free identities: pure rounding (|F| <= 150 eV, eps 2e-16, < 100 operations)
+
+
+# Tolerances (derived, with measured head-room on the healthy tree, thorough tier, 64 288 lattice points):
+#   two-centre integrals 1e-7 eV: the package's rho1/rho2 come from MOPAC's 5-step secant, <= 1.4e-9 bohr from the exact
+#     root (NR.secant5_rho), i.e. <= ~1e-8 eV on an integral; measured max 4.4e-9 (AM1 S-O, 0.6 A)          -> x22
+#   overlaps 1e-9 against the reference carrying MOPAC's documented B-series truncation; measured 7.8e-12     -> x100
+#   Hcore AA/BB: 1e-7 x core charge of the partner; Hcore AB: 1e-9 x |beta_mu+beta_nu|/2; Fock: propagated
+#     1e-7 x (core + 1.5 sum|P|); E_nuc: 1e-7 x Z_A Z_B (1 + f_A + f_B); energies: propagated, capped at 1e-6 relative
+#   reference-free identities 1e-10: pure rounding (|F| <= 150 eV, eps 2e-16, < 100 operations); measured 5.7e-14
+TOL_INT = 1e-7
+TOL_S = 1e-9
+TOL_ID = 1e-10
 
 _GEN = [
     np.array([0.3, -0.5, 0.81]), np.array([-0.72, 0.11, 0.45]), np.array([0.19, 0.93, -0.31]),
@@ -175,7 +195,8 @@ def eval_pair(task):
     En = pb.enuc()
     n = pb.n
     acache, pcache = {}, {}
-    models = [NR.Model(method, [ZA, ZB], np.array([[0.0, 0.0, 0.0], R * d]), atom_cache=acache, pair_cache=pcache) for R, d in geoms]
+    ms = task.get("mopac_series", True)
+    models = [NR.Model(method, [ZA, ZB], np.array([[0.0, 0.0, 0.0], R * d]), atom_cache=acache, pair_cache=pcache, mopac_series=ms) for R, d in geoms]
     A, B = models[0].atoms
     nA, nB = A.nao, B.nao
     cmps = [_Cmp() for _ in geoms]
@@ -211,7 +232,7 @@ def eval_pair(task):
         Wfull[:nA, :nA, :nB, :nB] = 0.0
         c.block("w_padding", Wfull, 0.0, 0.0)
         c.block("overlap", S_pkg[i][:nA, :nB], pr["S"], TOL_S)
-        c.dev["overlap_series_effect"] = max(c.dev.get("overlap_series_effect", 0.0), float(np.max(np.abs(pr["S"] - pr["S_exact"]))))
+        c.dev["overlap_series_effect"] = max(c.dev.get("overlap_series_effect", 0.0), float(np.max(np.abs(NR.rotate2(pr["local"].S_mopac, A, B, pr["E"]) - pr["S_exact"]))))
         c.dev["overlap_vs_exact"] = max(c.dev.get("overlap_vs_exact", 0.0), float(np.max(np.abs(S_pkg[i][:nA, :nB] - pr["S_exact"]))))
         Hp = h["H"][i]
         c.block("hcore_AA", Hp[:nA, :nA], mod.H[:nA, :nA], TOL_INT * B.core)
@@ -354,7 +375,7 @@ def eval_scf(task):
         return dict(error=f"{type(e).__name__}: {e}")
     if pk["notconverged"]:
         return dict(notconverged=True)
-    mod = NR.Model(method, mol["species"], mol["coords"])
+    mod = NR.Model(method, mol["species"], mol["coords"], mopac_series=task.get("mopac_series", True))
     c = _Cmp()
     # block level, polyatomic: assembly of Hcore from several neighbours, J/K scatter over several pairs
     from ..drivers.nddo import MolKernels
@@ -451,6 +472,27 @@ def scf_tasks(tier, seed):
 
 
 # ------------------------------------------------------------------------------------ run
+def detect_series_mode(_=None):
+    """Which of the two documented evaluations of the B auxiliary integrals does the tree under test implement for
+    1e-6 < |R (zeta_a - zeta_b)/2| <= 0.5: MOPAC's power series truncated after order 6 ("mopac6", the pinned commit) or
+    a converged one ("exact", proposed_fixes/C06_C08_bintgs_series.diff)?  Decided on the lattice point where the two
+    differ most (PM3 S-H just below the junction, 2.4e-7 on the overlap); everything else in the run is then held to
+    1e-9 against that evaluation.  A tree that matches neither is judged against "mopac6" and will be reported."""
+    from ..drivers.nddo import PairBatch
+
+    A, B = NR.Atom("PM3", 16), NR.Atom("PM3", 1)
+    geoms = [(0.76485, np.array([0.0, 1.0, 0.0])), (0.6, np.array([0.0, 1.0, 0.0]))]
+    S = PairBatch("PM3", 16, 1, geoms).overlap()
+    d_exact = d_series = 0.0
+    for (R, d), Sp in zip(geoms, S):
+        E = NR.local_frame(d)
+        pl = NR.PairLocal(A, B, R)
+        d_exact = max(d_exact, float(np.max(np.abs(Sp[:4, :1] - NR.rotate2(pl.S, A, B, E)))))
+        d_series = max(d_series, float(np.max(np.abs(Sp[:4, :1] - NR.rotate2(pl.S_mopac, A, B, E)))))
+    mode = "exact" if d_exact <= TOL_S else "mopac6"
+    return dict(mode=mode, dev_vs_exact=d_exact, dev_vs_mopac6=d_series, determined=bool(d_exact <= TOL_S or d_series <= TOL_S))
+
+
 def _qn(Z):
     return NR.NQ[Z]
 
@@ -471,7 +513,7 @@ UPSTREAM = {
 }  # fmt: skip
 
 
-def _report_pair(chk, res, task, confirm=None):
+def _report_pair(chk, res, task):
     """aggregate failures of one pair per quantity; returns list of (desc, detail, replay)."""
     method, ZA, ZB = res["method"], res["ZA"], res["ZB"]
     agg = {}
@@ -525,6 +567,23 @@ def run(chk, tier, seed):
     if prob:
         return
     vp.warm()
+    # premise of the 1e-7 eV integral tolerance: a 5-step secant (MOPAC, package) lands within 1e-8 bohr of the exact root
+    gap = 0.0
+    for method in METHODS:
+        for Z in M.ELEMENTS[method]:
+            if Z > 1:
+                a = NR.Atom(method, Z)
+                gap = max(gap, abs(NR.secant5_rho(1, a.D1, a.hsp) - a.rho1), abs(NR.secant5_rho(2, a.D2, a.hpp) - a.rho2))
+    chk.extra["secant5_gap_max_bohr"] = gap
+    if gap > 1e-8:
+        chk.harness_error(f"premise of the integral tolerance broken: 5-step secant is {gap:.2e} bohr from the root for some element")
+        return
+    (probe,) = pmap(detect_series_mode, [0], chunk=1, timeout=600)
+    if is_error(probe) or is_timeout(probe):
+        chk.harness_error(f"B-series probe did not run: {probe}")
+        return
+    chk.extra["b_series_probe"] = probe
+    ms = probe["mode"] == "mopac6"
     Rs = R_QUICK if tier == "quick" else R_FULL
     dirs = directions(tier, seed)
     tasks = []
@@ -533,12 +592,14 @@ def run(chk, tier, seed):
             rs = list(Rs)
             if tier != "quick":
                 rs = sorted(set(rs + R_EXTRA + boundary_distances(method, ZA, ZB)))
-            tasks.append(dict(method=method, ZA=ZA, ZB=ZB, Rs=rs, dirs=dirs, seed=seed))
+            tasks.append(dict(method=method, ZA=ZA, ZB=ZB, Rs=rs, dirs=dirs, seed=seed, mopac_series=ms))
     stasks = scf_tasks(tier, seed)
+    for t in stasks:
+        t["mopac_series"] = ms
     chk.planned = sum(len(t["Rs"]) for t in tasks) * len(dirs) + len(stasks)
 
     # determinism: the same task in two processes must agree bitwise
-    t0 = dict(method="AM1", ZA=8, ZB=1, Rs=[1.2], dirs=dirs[:2] + dirs[6:8], seed=seed)
+    t0 = dict(method="AM1", ZA=8, ZB=1, Rs=[1.2], dirs=dirs[:2] + dirs[6:8], seed=seed, mopac_series=ms)
     a, b = pmap(eval_pair, [t0, t0], chunk=1, timeout=600)
     if is_error(a) or is_error(b) or is_timeout(a) or is_timeout(b):
         chk.harness_error(f"determinism probe did not run: {a if is_error(a) else b}")
@@ -547,6 +608,8 @@ def run(chk, tier, seed):
         chk.harness_error("the same lattice point evaluated in two processes gave different deviations")
         return
 
+    chk.max_samples = 0  # samples are written out below (richer than the case keys)
+    my_samples = []
     results = pmap(eval_pair, tasks, chunk=1, timeout=1500, progress="C06 pair lattice")
     maxdev = {}
     pending = []  # failures to confirm singly
@@ -561,6 +624,14 @@ def run(chk, tier, seed):
             chk.violation(d1, f"{t['method']} {d0['pair']}: {s}", replay=dict(kind="pairtask", **{k: t[k] for k in ("method", "ZA", "ZB", "Rs", "dirs", "seed")}))
         for p in r["points"]:
             key = f"{t['method']}|{d0['pair']}|R={p['R']}|{p['dir']}"
+            sample = None
+            if p["R"] == 1.2 and p["dir"] == "+g" and len(my_samples) < 4 and (t["ZA"], t["ZB"]) in ((8, 1), (17, 16), (9, 9), (13, 4)):
+                sample = dict(
+                    method=t["method"], pair=d0["pair"], principal_qn=d0["qn"], R_angstrom=p["R"], orientation=p["dir"], unit_vector=p["vec"],
+                    basis_functions=r["n"], block_comparisons=p["ncomp"], max_abs_deviation={q: v for q, v in p["dev"].items() if q in ("overlap", "w", "ri_local", "hcore_AA", "hcore_AB", "enuc", "fock", "fock_u", "G", "response", "linearity")},
+                )  # fmt: skip
+            if sample:
+                my_samples.append(sample)
             chk.case(key, nontrivial=p["ncomp"] > 0, outcome=f"{d0['qn']}|{'ok' if not p['fails'] else 'FAIL'}|{p['sig']}")
             chk.states += 1
             chk.traces += 1
@@ -572,7 +643,7 @@ def run(chk, tier, seed):
 
     # every disagreement is re-run once in isolation (fresh process, the single geometry and its inverse)
     if pending:
-        singles = [_single_task(rp) for _, (_, _, rp) in pending]
+        singles = [dict(_single_task(rp), mopac_series=ms) for _, (_, _, rp) in pending]
         sres = pmap(eval_pair, singles, chunk=1, timeout=600, progress="C06 confirm")
         for (t, (d, detail, rp)), sr in zip(pending, sres):
             confirmed = True
@@ -602,6 +673,8 @@ def run(chk, tier, seed):
             chk.excluded += 1
             chk.case(key, nontrivial=False, outcome="notconverged")
             continue
+        if len(my_samples) < 6:
+            my_samples.append(dict(case=key, nbasis=r["nbas"], block_comparisons=r["ncomp"], max_abs_deviation=r["dev"], reference_scf=r["info"]))
         chk.case(key, nontrivial=True, outcome=f"scf|{'ok' if not r['fails'] else 'FAIL'}|{_bucket(r['dev'].get('scf_eelec_at_P', 0.0))}")
         chk.states += 1
         chk.traces += 1
@@ -633,13 +706,17 @@ def run(chk, tier, seed):
                 f"{key}: {f['quantity']} package {f['got']:.10g} reference {f['ref']:.10g} |dev| {f['dev']:.3e} > tol {f['tol']:.1e}; failing quantities {qs}",
                 replay=dict(t),
             )
+    chk.samples = my_samples
+    chk.max_samples = len(my_samples)
     chk.extra["max_deviation_seen"] = {q: dict(dev=v[0], at=v[1]) for q, v in sorted(maxdev.items())}
     chk.extra["scf_section"] = info
     chk.extra["documented_approximations"] = {
         "mopac_bintgs_series": dict(
-            what="for 1e-6 < |R(zeta_a-zeta_b)/2| <= 0.5 the package (like MOPAC's BINTGS, LAST=6) truncates the power series of the "
-            "B auxiliary integrals after order 6; the reference reproduces this by replacing exp(-beta*eta) with its 6th-order "
-            "Taylor polynomial inside its own quadrature, and the overlaps then agree to the 1e-9 tolerance",
+            what="for 1e-6 < |R(zeta_a-zeta_b)/2| <= 0.5 MOPAC's BINTGS (LAST=6), and the package at the pinned commit, truncate the "
+            "power series of the B auxiliary integrals after order 6; the reference can reproduce this by replacing exp(-beta*eta) "
+            "with its 6th-order Taylor polynomial inside its own quadrature. A probe (b_series_probe) decides once per run which "
+            "evaluation the tree implements (mopac6 or exact); all overlaps are then held to 1e-9 against that one",
+            mode_of_this_tree=probe["mode"],
             max_effect_on_overlap=maxdev.get("overlap_series_effect", (0.0, ""))[0],
             at=maxdev.get("overlap_series_effect", (0.0, ""))[1],
             max_package_vs_exact_overlap=maxdev.get("overlap_vs_exact", (0.0, ""))[0],
@@ -655,10 +732,11 @@ def run(chk, tier, seed):
 
 
 def replay(payload):
-    c = payload["replay"]
+    c = dict(payload["replay"])
+    c["mopac_series"] = detect_series_mode()["mode"] == "mopac6"  # judged against what the current tree implements
     ok = True
     if c.get("kind") == "pair":
-        r = eval_pair(_single_task(c))
+        r = eval_pair(dict(_single_task(c), mopac_series=c["mopac_series"]))
         for p in r["points"]:
             for f in p["fails"]:
                 print(f"   R={p['R']} dir={p['dir']} {f['quantity']}[{f.get('sub', '')}] index={f['index']} package {f['got']:.10g} reference {f['ref']:.10g} dev {f['dev']:.3e} tol {f['tol']:.1e}")
